@@ -571,7 +571,10 @@ def evaluate(ctx, case, obs, obs_prep, driver_answers):
         zm_on = case["zm"] if case["zm"] is not None else (eng == "cp2k")
         if zm_on:
             mom = (v * masses).sum(axis=0)
-            scale = float(np.abs(v * masses).sum()) + 1e-300
+            # scale of the momenta that were drawn (a lone particle is left with rounding residue only)
+            zabs = np.abs(np.array(case["z"], dtype=float))
+            sdv = np.array([math.sqrt(float(kT_units(eng, T, m_))) for m_ in masses_as_given(case)]).reshape(-1, 1)
+            scale = float(np.abs(v * masses).sum()) + float((masses * sdv * zabs).sum()) + 1e-300
             if np.any(np.abs(mom) > 1e-9 * scale + tol * float(masses.sum())):
                 fail(f"C16:{eng}:momentum-not-zero", f"{tag}: total momentum {mom.tolist()} with zero_momentum on")
         # 4. reported energies
@@ -674,7 +677,8 @@ def compare_model(case, obs, mo):
     gv = obs["genvel"]["vel"]
     mv = np.array([[float(x) for x in col] for col in mo["vel"]]).T if mo["vel"] and mo["vel"][0] else np.zeros((0, 3))
     vmax = float(np.abs(mv).max()) if mv.size else 0.0
-    if gv.shape != mv.shape or np.any(np.abs(gv - mv) > tol + 1e-9 * np.abs(mv) + 1e-13 * vmax):
+    vmax = max(vmax, float(np.abs(vd).max()) if vd.size else 0.0)
+    if gv.shape != mv.shape or np.any(np.abs(gv - mv) > tol + 1e-9 * np.abs(mv) + 1e-12 * vmax):
         probs.append(f"velocities {gv.tolist()} vs model {mv.tolist()}")
     mp = np.array([[float(x) for x in col] for col in mo["pos"]]).T
     if obs["genvel"]["pos"].shape != mp.shape or not np.array_equal(obs["genvel"]["pos"], mp):
